@@ -73,8 +73,6 @@ class Ctx:
     # ---- verdict helpers ---------------------------------------------------------------------
     def in_known(self, case, what=None):
         for k in self.known:
-            if k.get('status') == 'fixed':
-                continue
             pred = k.get('_pred')
             if pred and pred(case):
                 return k
@@ -160,11 +158,37 @@ def run_lines(cmd, lines, env=None, parallel=True, restart=True):
 # known findings
 
 def load_known(pid):
+    """unrepaired findings that apply to this property (status "finding"), with their region predicates attached"""
     path = V + '/known_findings.json'
     if not os.path.exists(path):
         return []
     data = json.load(open(path))
-    return [dict(k) for k in data.get('findings', []) if k.get('property') == pid]
+    try:
+        import known_regions
+        preds = known_regions.PREDICATES
+    except Exception:   # noqa
+        preds = {}
+    out = []
+    for k in data.get('findings', []):
+        if k.get('status') != 'finding':
+            continue
+        if k.get('property') == pid or pid in k.get('applies_to', []):
+            k = dict(k)
+            k['_pred'] = preds.get(k.get('id'))
+            out.append(k)
+    return out
+
+
+def replay_known(ctx):
+    """replays the witness of every listed finding of this property: while it still fails, one KNOWN-FINDING line"""
+    for k in ctx.known:
+        if k.get('property') != ctx.pid or not k.get('witness'):
+            continue
+        g = ctx.run_go([k['witness']], parallel=False)[0]
+        still = g.startswith(k.get('fails_with', '\0'))
+        ctx.notes.append('known finding %s: witness answers %r (%s)' % (k.get('id'), g[:80], 'still fails' if still else 'no longer fails'))
+        if still and k not in ctx.known_hit:
+            ctx.known_hit.append(k)
 
 
 # ---------------------------------------------------------------------------------------------
@@ -373,7 +397,7 @@ def finish(ctx, mod, n_obligations_expected):
     lines = []
     # known findings re-observed
     for k in ctx.known_hit:
-        lines.append('KNOWN-FINDING: property=%s %s' % (pid, k.get('what', k.get('id', ''))))
+        lines.append(k.get('line') if str(k.get('line', '')).startswith('KNOWN-FINDING: property=%s ' % pid) else 'KNOWN-FINDING: property=%s %s' % (pid, k.get('what', k.get('id', ''))))
     replay_path = None
     if ctx.violations:
         what, case, go, spec = ctx.violations[0]
